@@ -135,6 +135,42 @@ pub mod verif_hooks {
         ))
     }
 
+    /// Raw access (no cache logic) to the buffer revision, to build arbitrary pre-states.
+    pub fn raw_buffer_rev_mut(market: &mut Market) -> &mut u64 {
+        market.buffer.verif_rev_mut()
+    }
+
+    /// Raw access (no cache logic) to a stored (`buffered == false`) or buffered pool storage.
+    pub fn raw_pool_storage_mut(
+        market: &mut Market,
+        kind: PoolKind,
+        buffered: bool,
+    ) -> Option<&mut crate::states::PoolStorage> {
+        if buffered {
+            market.buffer.verif_raw_pool_storage_mut(kind)
+        } else {
+            market.state.pools.get_mut(kind)
+        }
+    }
+
+    /// Raw access (no cache logic) to the stored or buffered clocks.
+    pub fn raw_clocks_mut(market: &mut Market, buffered: bool) -> &mut Clocks {
+        if buffered {
+            market.buffer.verif_raw_clocks_mut()
+        } else {
+            &mut market.state.clocks
+        }
+    }
+
+    /// Raw access (no cache logic) to the stored or buffered other state.
+    pub fn raw_other_mut(market: &mut Market, buffered: bool) -> &mut OtherState {
+        if buffered {
+            market.buffer.verif_raw_other_mut()
+        } else {
+            &mut market.state.other
+        }
+    }
+
     /// Revisions of the stored and buffered clocks: `(storage, buffer)`.
     pub fn clocks_revs(market: &Market) -> (u64, u64) {
         (market.state.clocks.rev(), market.buffer.verif_clocks_rev())
